@@ -1,6 +1,6 @@
 SPECIFICATION GenSpec
 CONSTANTS
-  A = 3
+  A = 4
   Depth = 2
   Mode = "F"
   Fixed = TRUE
